@@ -2,7 +2,7 @@
 # usage: tools/confirm_seed.sh Cxx  — confirms a sub-agent's seeded change in its scratch worktree /tmp/seed/Cxx:
 # (1) HEAD + patch.diff: the repository's 319-test suite passes; (2) HEAD + patch + demo: demo fails;
 # (3) HEAD + demo only: demo passes. On success copies the deliverables to /verif/seeded/Cxx/.
-id="$1"; wt=/tmp/seed/$id; T=/tmp/seed/target
+id="$1"; R=${SEEDROOT:-/tmp/seed}; D=${SEEDDEST:-/verif/seeded}; wt=$R/$id; T=/tmp/seed/target
 [ -f $wt/out/patch.diff ] || { echo "no patch"; exit 2; }
 clean() { git -C $wt reset -q --hard; git -C $wt clean -qfd -e out -e target; }
 demo=$(python3 -c "import json;print(json.load(open('$wt/out/meta.json'))['demo_cmd'])" | sed "s#CARGO_TARGET_DIR=[^ ]*##; s#^cd [^&]*&& *##")
@@ -11,23 +11,23 @@ clean; git -C $wt apply $wt/out/patch.diff || { echo "patch does not apply"; exi
 suite=$(cd $wt && cargo nextest run --workspace --no-fail-fast --tool-config-file pb:/w/lib/nextest.toml --profile pb --test-threads 8 --offline 2>&1 | grep -E "Summary|error(\[|:)" | head -3)
 echo "suite with patch: $suite"
 git -C $wt apply $wt/out/demo.diff || { echo "demo does not apply on patch"; exit 2; }
-(cd $wt && sh -c "$demo" > /tmp/seed/$id.demo_with.log 2>&1); rc_with=$?
+(cd $wt && sh -c "$demo" > $R/$id.demo_with.log 2>&1); rc_with=$?
 clean; git -C $wt apply $wt/out/demo.diff
-(cd $wt && sh -c "$demo" > /tmp/seed/$id.demo_without.log 2>&1); rc_without=$?
+(cd $wt && sh -c "$demo" > $R/$id.demo_without.log 2>&1); rc_without=$?
 clean
 echo "demo with patch rc=$rc_with (want !=0); demo without patch rc=$rc_without (want 0)"
 ok=no
 case "$suite" in *"319 passed"*) [ $rc_with -ne 0 ] && [ $rc_without -eq 0 ] && ok=yes ;; esac
 echo "confirmed=$ok"
 if [ $ok = yes ]; then
-  mkdir -p /verif/seeded/$id
-  cp $wt/out/patch.diff $wt/out/demo.diff /verif/seeded/$id/
-  python3 - "$id" "$suite" $rc_with $rc_without <<'PY'
+  mkdir -p $D/$id
+  cp $wt/out/patch.diff $wt/out/demo.diff $D/$id/
+  python3 - "$id" "$suite" $rc_with $rc_without "$R" "$D" <<'PY'
 import json,sys
-id,suite,rw,rwo=sys.argv[1:5]
-m=json.load(open(f'/tmp/seed/{id}/out/meta.json'))
-m['confirmed']={'suite_with_patch':suite.strip(),'demo_exit_with_patch':int(rw),'demo_exit_without_patch':int(rwo),'how':'tools/confirm_seed.sh in the scratch worktree /tmp/seed/'+id}
+id,suite,rw,rwo,R,D=sys.argv[1:7]
+m=json.load(open(f'{R}/{id}/out/meta.json'))
+m['confirmed']={'suite_with_patch':suite.strip(),'demo_exit_with_patch':int(rw),'demo_exit_without_patch':int(rwo),'how':'tools/confirm_seed.sh in the scratch worktree '+R+'/'+id}
 m['demo_cmd_note']='paths in demo_cmd refer to the sub-agent\'s scratch worktree; run it from any checkout with demo.diff applied'
-json.dump(m,open(f'/verif/seeded/{id}/meta.json','w'),indent=1)
+json.dump(m,open(f'{D}/{id}/meta.json','w'),indent=1)
 PY
 fi
